@@ -29,7 +29,7 @@ meta = json.load(open(V + '/tools/manifest_meta.json'))
 ids = [json.loads(l)['id'] for l in open(V + '/properties.jsonl')]
 m = {
     "version": 1,
-    "setup_cmd": "cd /verif/engine && GOFLAGS=-mod=mod GOPROXY=off GOSUMDB=off GOTOOLCHAIN=local go build -o /verif/bin/gjv ./cmd/gjv && cd /verif/harness && GOFLAGS=-mod=mod GOPROXY=off GOSUMDB=off GOTOOLCHAIN=local go vet ./... ",
+    "setup_cmd": "cd /verif/engine && GOFLAGS=-mod=mod GOPROXY=off GOSUMDB=off GOTOOLCHAIN=local go build -o /verif/bin/gjv ./cmd/gjv && cd /verif/harness && GOFLAGS=-mod=mod GOPROXY=off GOSUMDB=off GOTOOLCHAIN=local go vet ./... && /verif/bin/gjv selftest",
     "hooks": {"guard": "verif", "enable": "no source hooks are needed: the engine re-encodes /repo's SSA on every run; in-package kernel harnesses are injected with a go/packages overlay (//go:build verif) and never written into /repo",
               "baseline_off_cmd": "cd /repo && GOFLAGS=-mod=mod GOPROXY=off go test -vet=off -count=1 ./...", "source_commits": [], "add_only": True},
     "engines": [{"name": "gjv", "path": "/verif/engine", "serves_properties": sorted(checks.keys()),
